@@ -8,6 +8,7 @@ import TapkeeVerif.Proofs.CoverRefute
 import TapkeeVerif.Proofs.CoverFinal
 import TapkeeVerif.Proofs.CoverBuildCreate
 import TapkeeVerif.Proofs.CoverBuildFuel
+import TapkeeVerif.Proofs.CoverBuildMono
 /-!
 # Property C02 — all three neighbour searches return exactly the k nearest other samples
 
@@ -143,7 +144,7 @@ every sample near `q` (`CoverTree.Near`: no `K0 = k+1` distinct samples are all 
 Ingredients: the `upper_bound` array is justified at every step, every pruning decision is sound, the traversal
 loses no node (live-set invariant through `descend`, the copy loops and the recursion).  The theorem is about
 answers (`= some res`); that the fuel of the model suffices is not proved (the driver never saw `mq=fuel`).
-`batch_create` is not modelled (well-formedness is a per-run certificate); `halfsort` is a parameter of the
+`batch_create` is modelled and proved to deliver `wfTree` below (`batchCreate_wf`, `cover_tree_end_to_end`); `halfsort` is a parameter of the
 model and the theorems hold for every `hsort` returning a permutation of its argument.  For the copy bound with
 `query_chi->max_dist` counted once — the code before the repair — the statement is refuted below. -/
 
@@ -346,6 +347,31 @@ theorem batchCreate_fuel_suffices {δ : Nat → Nat → K} (hm : IsMetric δ) {g
     (hsc : ScalesOk δ getScale distOfScale points sLow sTop) {fuel : Nat} (hfuel : (sTop - sLow).toNat + 2 ≤ fuel) :
     ∃ t ls, batchCreate δ getScale distOfScale fuel points = some (t, ls) :=
   batchCreate_total hm.self hm.nonneg hpos hne hsc hfuel
+
+/-- **`batchCreate_fuel_mono`** : the answer does not depend on the fuel — what the model returns with some fuel it
+    returns with every larger fuel (no hypotheses). -/
+theorem batchCreate_fuel_mono {δ : Nat → Nat → K} {getScale : K → Int} {distOfScale : Int → K} {fuel fuel' : Nat}
+    (hle : fuel ≤ fuel') {points : List Nat} {res : CNode K × Nat}
+    (h : batchCreate δ getScale distOfScale fuel points = some res) :
+    batchCreate δ getScale distOfScale fuel' points = some res :=
+  batchCreate_fuel_mono' hle h
+
+/-- **`batchCreate_total_wf`** (total correctness of the construction) : for every (pseudo-)metric, every `N ≥ 1`, the
+    samples `0 .. N-1` in any order, scale functions with `0 ≤ distOfScale` that bracket the positive distances, and
+    enough fuel, `batch_create` returns a tree and that tree satisfies `wfTree`. -/
+theorem batchCreate_total_wf {δ : Nat → Nat → K} (hm : IsMetric δ) {getScale : K → Int} {distOfScale : Int → K}
+    (hpos : ∀ s, 0 ≤ distOfScale s) {N : Nat} (hN : 1 ≤ N) {points : List Nat} (hpts : points.Perm (List.range N))
+    {sLow sTop : Int} (hsc : ScalesOk δ getScale distOfScale points sLow sTop) {fuel : Nat}
+    (hfuel : (sTop - sLow).toNat + 2 ≤ fuel) :
+    ∃ t ls, batchCreate δ getScale distOfScale fuel points = some (t, ls) ∧ wfTree δ N t = true := by
+  have hne : points ≠ [] := by
+    intro h0
+    have := hpts.length_eq
+    rw [h0, List.length_range] at this
+    simp at this
+    omega
+  obtain ⟨t, ls, h⟩ := batchCreate_fuel_suffices hm hpos hne hsc hfuel
+  exact ⟨t, ls, h, batchCreate_wf hm hpos hpts h⟩
 
 /-- **F-COVER-TOP, Lean-checked**: with the top scale `get_scale(max_dist)` taken as it is (the code before the
     repair) the construction drops samples as soon as `dist_of_scale(get_scale(d)) < d` — witness: two samples at
